@@ -1,6 +1,7 @@
 import Proofs.Props.C08
 import Proofs.Props.C06
 import Proofs.Lemmas.ServerBound
+import Proofs.Lemmas.ClientInv
 /-!
   C09 — no peer input can crash, wedge or bloat an endpoint (server endpoint
   here; client endpoint in `Proofs/Props/C09Client.lean`).
@@ -184,6 +185,26 @@ theorem C09_bounded (cfg : SCfg) (xs : List (SStim α)) :
 theorem C09_loop_never_blocks_fc (cfg : SCfg) (xs : List (SStim α)) :
     ∀ e ∈ (Srv.run cfg ({} : Srv α) xs).1.streams, e.2.fc = true → e.2.unsupported = false :=
   Proofs.ServerBound.fc_never_unsupported cfg xs
+
+/-! ### client endpoint -/
+
+/-- **Bounded buffering, client endpoint**, for every stimulus history
+    (arbitrary frames from any raw server included). -/
+theorem C09_client_bounded (cfg : CCfg) (xs : List (CStim α)) :
+    ∀ e ∈ (Cli.run cfg (Cli.start cfg) xs).1.streams, e.2.fc = true →
+      Proofs.ClientInv.queuedBytes e.2 ≤ cfg.W :=
+  Proofs.ClientInv.C09_client_bounded cfg xs
+
+/-- **The client receive loop never wedges under flow control.** -/
+theorem C09_client_loop_never_blocks_fc (cfg : CCfg) (xs : List (CStim α)) :
+    ∀ e ∈ (Cli.run cfg (Cli.start cfg) xs).1.streams, e.2.fc = true → e.2.unsupported = false :=
+  Proofs.ClientInv.client_fc_never_unsupported cfg xs
+
+/-- **Frames for finished RPCs are discarded by the client without effect.** -/
+theorem C09_client_late_frame_ignored (cfg : CCfg) (c : Cli α) (sid : Sid) (f : S2C α)
+    (hfin : c.finished = none) (hph : c.phase = .running) (hnt : c.getStream sid = none)
+    (hc : c.streamCreated = true) (hle : sid ≤ c.lastStreamID) : c.onFrame cfg sid f = (c, {}) :=
+  Proofs.ClientInv.client_late_frame_ignored cfg c sid f hfin hph hnt hc hle
 
 -- non-vacuity: an empty method name is answered by a stream-level refusal, not a crash
 example :
